@@ -66,6 +66,30 @@ def apply(d, roles=None):
             return {'fields': [], 'fns': [], 'fresh': []}
         roles = json.load(open(ROLES))
     rep = {'fields': [], 'fns': []}
+    # ---- types moved to another module of the crate (same name, same fields): every mention of the new path is
+    # rewritten to the path of the reference tree (type strings, impl owners and the paths of the type's methods)
+    moved = {}
+    for path, rfields in roles['adts'].items():
+        if path in d['adts']:
+            continue
+        name = path.split('::')[-1]
+        cands = []
+        for cp, a in d['adts'].items():
+            if cp in roles['adts'] or cp.split('::')[-1] != name or a.get('kind') != 'Struct':
+                continue
+            cur = [[fl['name'], fl['ty']['s'].replace(cp, path)] for fl in a['variants'][0]['fields']]
+            if cur == [[n_, t_] for n_, t_ in rfields]:
+                cands.append(cp)
+        if len(cands) == 1:
+            moved[cands[0]] = path
+    if moved:
+        text = json.dumps(d)
+        for newp, oldp in moved.items():
+            text = re.sub(re.escape(newp) + r'(?![A-Za-z0-9_])', oldp, text)
+            rep['fields'].append('type %s is %s of the reference tree (moved to another module)' % (newp, oldp))
+        nd = json.loads(text)
+        d.clear()
+        d.update(nd)
     # ---- fields
     falias = {}   # (adt path, current name) -> role name
     for path, rfields in roles['adts'].items():
@@ -112,6 +136,18 @@ def apply(d, roles=None):
             nalias[cand[0]] = m
             fresh.remove(cand[0])
             rep['fns'].append('%s is %s of the reference tree' % (cand[0], m))
+    # free functions moved to another module (same name, same signature)
+    for m in [x_ for x_ in missing if x_ not in nalias.values()]:
+        r = roles['fns'][m]
+        if not r['owner'].startswith('mod '):
+            continue
+        last = re.sub(r'<[^<>]*>', '', m).split('::')[-1]
+        cand = [n for n in fresh if re.sub(r'<[^<>]*>', '', n).split('::')[-1] == last and _owner(n, cur_fns[n]).startswith('mod ')
+                and _sig(cur_fns[n]) == r['sig']]
+        if len(cand) == 1:
+            nalias[cand[0]] = m
+            fresh.remove(cand[0])
+            rep['fns'].append('%s is %s of the reference tree (moved to another module)' % (cand[0], m))
     if nalias:
         def ren(s):
             for cur, role in nalias.items():
